@@ -120,7 +120,9 @@ class Lib:
         a = arr_of(v, st)
         if a is None or a.kind != "b":
             raise Unsupported("~ on non-boolean array")
-        return st.alloc(ArrData(a.shape, lambda *i: z3.Not(z3bool(a.sel(*i))), "b"))
+        r = ArrData(a.shape, lambda *i: z3.Not(z3bool(a.sel(*i))), "b")
+        r.negation_of = a
+        return st.alloc(r)
 
     # ------------------------------------------------------------------ arrays: indexing
     def array_index(self, E, ref, d, sl, st):
@@ -244,6 +246,19 @@ class Lib:
                 self._filter_table.append((z3.simplify(z3bool(mask.sel(_PROBE))), mask._filter_memo))
         if not any(h is axioms[2] for h in st.pc):
             st.assume(*axioms)
+        neg = getattr(mask, "negation_of", None)
+        sc = getattr(neg, "scatter", None) if neg is not None else None
+        if sc is not None and mask.ndim == 1:
+            ia, _mem, _wit, v, base = sc
+            if getattr(base, "all_zero", False) and base.kind == "b" and v is True:
+                # counting lemma (trusted, the complement form of the scatter-of-ones lemma): a mask that is False exactly at k pairwise
+                # distinct in-range positions has n - k True entries
+                _used(E, "count of the complement of k distinct positions = n - k (trusted counting lemma)")
+                k_ = to_int(ia.shape[0])
+                t, u = z3.Ints("cl_t cl_u")
+                distinct = z3.ForAll([t, u], z3.Implies(z3.And(0 <= t, t < u, u < k_), to_int(ia.sel(t)) != to_int(ia.sel(u))))
+                inrange = z3.ForAll([t], z3.Implies(z3.And(0 <= t, t < k_), z3.And(0 <= to_int(ia.sel(t)), to_int(ia.sel(t)) < n)))
+                st.assume(z3.Implies(z3.And(distinct, inrange), m == n - k_))
         res = ArrData((m,) + d.shape[1:], lambda i, *r: d.sel(pos(i), *r), d.kind)
         res.filter_of = (mask, pos, m, inv)
         return st.alloc(res)
@@ -1074,7 +1089,10 @@ def register_builtins(L):
                 v = mk_fv(n, r)
             if k == "o":
                 return st.alloc(ArrData(shape, fresh_sel("like", "o", len(shape)), "o"))
-            return st.alloc(ArrData(shape, lambda *i: v, k))
+            r = ArrData(shape, lambda *i: v, k)
+            if k == "b" and v is False:
+                r.all_zero = True
+            return st.alloc(r)
         raise Unsupported(name)
 
     @fn("np.arange")
